@@ -18,9 +18,10 @@ def run(ctx):
         sections=['search'], finish=False)
     # static worlds: basic, compact, compact merged from several files (incl. files that restate the same points,
     # so that a result comes from three merged iterators), and layered worlds (scenario 2)
-    sworld.run_static(
-        ctx, "C03", 2, variants=[{"impl": "layered-basic"}, {"impl": "layered-mixed", "max": (8, 100)}],
-        sections=["search"], rule="", max_cases=ctx.pick(300, None), finish=False)
+    if not ctx.quick:   # layered worlds are C16's quick tier
+        sworld.run_static(
+            ctx, "C03", 2, variants=[{"impl": "layered-basic"}, {"impl": "layered-mixed", "max": (8, 100)}],
+            sections=["search"], rule="", max_cases=ctx.pick(300, None), finish=False)
     return sworld.run_static(
         ctx, "C03", 1,
         variants=[{"impl": "basic", "cores": 2}, {"impl": "compact", "cores": 2, "max": (12, 200)},
